@@ -213,24 +213,30 @@ theorem geomean_row_spec (orc : Oracles) (rows : List κ) (cells : List ((κ × 
   · rw [hw, m3]
     simp only [Bool.and_eq_true, Bool.not_eq_eq_eq_not, Bool.not_true, and_assoc]
 
-/-- the geomean itself: NaN exactly for an empty list or one with an element `<= 0`; otherwise
-the answer of go-moremath's `GeoMean` on that list -/
+/-- the geomean itself: NaN for an empty list, one with an element `<= 0` or a NaN element;
+otherwise the answer of go-moremath's `GeoMean` on that list -/
 theorem geoMean_spec (orc : Oracles) (xs : List F64.Bits) :
-    (xs = [] ∨ (∃ x ∈ xs, nonPos x = true) → (geoMean orc xs).val = F64.nan) ∧
-    (xs ≠ [] → (∀ x ∈ xs, nonPos x = false) → geoMean orc xs = orc.geomean xs) := by
+    (xs = [] ∨ (∃ x ∈ xs, nonPos x = true) ∨ (∃ x ∈ xs, F64.isNaN x = true) → (geoMean orc xs).val = F64.nan) ∧
+    (xs ≠ [] → (∀ x ∈ xs, nonPos x = false) → (∀ x ∈ xs, F64.isNaN x = false) → geoMean orc xs = orc.geomean xs) := by
   unfold geoMean
   constructor
-  · rintro (h | ⟨x, hx, hp⟩)
+  · rintro (h | ⟨x, hx, hp⟩ | ⟨x, hx, hp⟩)
     · simp [h]
     · have : xs.any nonPos = true := List.any_eq_true.mpr ⟨x, hx, hp⟩
       simp [this]
-  · intro h1 h2
-    have : xs.any nonPos = false := by
+    · have : xs.any F64.isNaN = true := List.any_eq_true.mpr ⟨x, hx, hp⟩
+      simp [this]
+  · intro h1 h2 h4
+    have a1 : xs.any nonPos = false := by
       rw [Bool.eq_false_iff]; intro h
       obtain ⟨x, hx, hp⟩ := List.any_eq_true.mp h
       rw [h2 x hx] at hp; exact Bool.false_ne_true hp
+    have a2 : xs.any F64.isNaN = false := by
+      rw [Bool.eq_false_iff]; intro h
+      obtain ⟨x, hx, hp⟩ := List.any_eq_true.mp h
+      rw [h4 x hx] at hp; exact Bool.false_ne_true hp
     have h3 : xs.isEmpty = false := by cases xs <;> simp_all
-    simp [this, h3]
+    simp [a1, a2, h3]
 
 /-- **residue_warning_exact**: for every stream and every key, the warning `summarizeCell`
 attaches to the cell is determined by the GROUP of measurements of that cell alone: it is absent
